@@ -133,6 +133,7 @@ func c17hist(c *Ctx) {
 			usedVals[l] = true
 		}
 		usedNames := map[string]bool{} // exact titles/names in use
+		twin := ""                     // the title the NEXT registration will ask for (see the escaped-spelling pairs)
 		usedLower := map[string]bool{}
 		for _, n := range builtinNames {
 			usedNames[n] = true
@@ -220,6 +221,19 @@ func c17hist(c *Ctx) {
 					rl.title = gen.Pick(r, []string{fmt.Sprintf("L#%d", int(rl.val)), fmt.Sprintf("L#%d", int(gen.Pick(r, universe))), "L#2-cache", "L#", "l#9", "L#x"})
 					c.R.Add("placeholder_like_titles_tried", 1)
 				}
+				if r.P(5) {
+					// a title longer than any stock name (33+ bytes; in other scripts that is 11-17 characters)
+					rl.title = gen.Pick(r, []string{"a-level-name-that-is-rather-long-", "\u76e3\u67fb\u30ed\u30b0\u91cd\u8981\u5ea6\u30ec\u30d9\u30eb\u756a\u53f7", "\u0443\u0440\u043e\u0432\u0435\u043d\u044c-\u0436\u0443\u0440\u043d\u0430\u043b\u0430-", strings.Repeat("x", 64)}) + fmt.Sprint(int(rl.val))
+					c.R.Add("titles_longer_than_32_bytes_tried", 1)
+				}
+				if twin != "" {
+					// the title registered right before this one has a twin: its JSON-escaped spelling taken literally
+					rl.title, twin = twin, ""
+					c.R.Add("titles_that_are_the_escaped_spelling_of_another_title_tried", 1)
+				} else if r.P(6) {
+					pair := gen.Pick(r, [][2]string{{"net\tio", `net\tio`}, {`net\tio`, "net\tio"}, {"R&D", `R\u0026D`}, {`q\"x`, `q"x`}, {"caf\u00e9", `caf\u00e9`}, {`back\\slash`, `back\slash`}})
+					rl.title, twin = pair[0], pair[1]
+				}
 				if r.P(15) && len(e.regs) > 0 {
 					rl.title = gen.Pick(r, e.regs).title // colliding title
 				}
@@ -231,6 +245,10 @@ func c17hist(c *Ctx) {
 					rl.tags = [6]string{"", string(t[:1]), string(t[:2]), string(t[:3]), string(t[:4]), string(t[:5])}
 					if r.P(30) {
 						rl.tags[2] = "" // a missing width falls back to the computed tag
+					}
+					if r.P(12) {
+						rl.tags[3] = string(t[:4]) // a tag wider than its slot: the given tags are used as given
+						c.R.Add("tags_wider_than_their_slot_tried", 1)
 					}
 					opts = append(opts, slog.RegWithShortTags(rl.tags))
 					odesc = append(odesc, "tags")
@@ -287,13 +305,14 @@ func c17hist(c *Ctx) {
 					fail("refusal", "accepted-duplicate", fmt.Sprintf("%s was accepted although %s", step, why))
 					return
 				case err != nil:
-					if !mustRefuse && !caseVariant {
-						fail("refusal", "refused-fresh", fmt.Sprintf("%s was refused (%v) although value and title are unused", step, err))
-						return
-					}
+					// whatever the reason of a refusal: it leaves every table as it was
 					after := e.observe(uni2, names2)
 					if d := diffObs(before, after); len(d) > 0 {
 						fail("refusal-side-effect", "tables-changed", fmt.Sprintf("%s was refused (%v) but changed: %v", step, err, d))
+						return
+					}
+					if !mustRefuse && !caseVariant {
+						fail("refusal", "refused-fresh", fmt.Sprintf("%s was refused (%v) although value and title are unused", step, err))
 						return
 					}
 					c.R.Add("refusals_checked_for_side_effects", 1)
